@@ -243,6 +243,9 @@ func (m *StreamModel) GenBatch(tp *simcore.Tape, o BatchOpts, batchNo int) []*SR
 			if len(o.FixedTimes) > 0 && tp.Side().Bool(1, 4) { // e.g. exactly on a segment boundary
 				r.Ts = o.FixedTimes[tp.Side().Choose(len(o.FixedTimes))]
 			}
+			if len(o.BoundaryTimes) > 0 && tp.Side().Bool(1, 6) {
+				r.Ts = o.BoundaryTimes[tp.Side().Choose(len(o.BoundaryTimes))]
+			}
 		}
 		m.nextW++
 		r.Wid = m.nextW
